@@ -280,10 +280,28 @@ func denLeaves(l gts.Location) []dleaf {
 	}
 }
 
+// leafLen: the length of a contiguous leaf, read off its own fields the way Gts.Loc.len states it (a
+// between-site 0, a point 1, a range End - Start, an ambiguous span 1: Gts.Loc.bears of Spec/Marks.lean
+// notes `Ambiguous.Len() = 1`) — NOT the leaf's Len() method: the oracles that ask "does this leaf bear
+// residues" / "is this leaf as long as the record" must not move with a defect of that method.
+func leafLen(l gts.Location) int {
+	switch v := l.(type) {
+	case gts.Between:
+		return 0
+	case gts.Point:
+		return 1
+	case gts.Ranged:
+		return v.End - v.Start
+	case gts.Ambiguous:
+		return 1
+	}
+	panic(fmt.Sprintf("leafLen: not a contiguous leaf %T", l))
+}
+
 // outerLeaves: first and last residue-bearing leaf in reading order.
 func outerLeaves(l gts.Location) (first, last dleaf, ok bool) {
 	for _, d := range denLeaves(l) {
-		if d.l.Len() > 0 {
+		if leafLen(d.l) > 0 {
 			if !ok {
 				first = d
 				ok = true
